@@ -234,11 +234,16 @@ class MapProductLike(KimContract):
 def units():
     simple = ["map_constant", "map_variable", "map_product", "map_quotient", "map_power", "map_comparison",
               "map_max", "map_subscript", "map_logical_not", "map_call", "map_call_with_kwargs"]
-    from . import c14, finder
+    from . import c14, finder, builtins
     # the property needs the table to be a fixed point of every statement (a kind refined late must reach all its
     # readers): the table's `set` and the driver loop are under the contracts of C14
     return [FunctionUnit(KimContract(m)) for m in simple] + [FunctionUnit(MapSum()), FunctionUnit(MapProductLike())] \
-        + c14.table_units() + finder.units()
+        + c14.table_units() + finder.units() + builtins.units()
+
+
+def concretize(obligation_name, model_text):
+    from . import builtins
+    return builtins.concretize(obligation_name, model_text)
 
 
 LEVEL = "other"
@@ -252,7 +257,11 @@ ASSUMPTIONS = [
     "MIXED (category other): only the clause 'every inferred expression kind is a kind, never None' is proved, per map_* method; "
     "that every assigned variable gets a table entry is NOT proved (finding D23 shows it is false for subscript-only assignments); "
     "for SymbolKindFinder.__call__ what is proved is that the returned table is a common fixed point of all statement steps (see C14)",
-    "value-vs-kind agreement and the declared result kinds of the built-ins are decided only by the bounded stand-in (built-ins on a value catalogue; random builder programs run on the real interpreter)",
+    "value-vs-kind agreement of programs is decided only by the bounded stand-in (random builder programs run on the real interpreter)",
+    "declared result kinds of the built-ins: each get_result_kinds is proved to return upper bounds of IMPL_f(argument kinds) for all determined "
+    "argument kinds in the implementation's domain; IMPL_f (contracts/builtins.py) is an ASSUMED contract on dagrt/builtins_python.py + NumPy's dtype "
+    "rules (complex iff an operand is complex; norms, sizes and singular values are real), written down by hand and exercised by the bounded "
+    "stand-in on a value catalogue; isnan is covered for scalars only (array argument: finding D12)",
 ]
 EXPLANATION = ("MIXED. Proved: each KindInferenceMapper.map_* (constant, variable, sum, product-like, product, quotient, power, comparison, "
                "logical ops, min/max, subscript, calls) returns a SymbolKind and never None on every normal exit, given the induction hypothesis "
